@@ -27,5 +27,8 @@ a01d2b5 C14
 f0bff9b C17
 e88ed9d C19
 f3ff6ae C33
+c069399 C18
+ca3119a C07
+f3e91ed C03 C12
 LIST
 grep -c "exit=1" $out; grep "exit=0\|exit=2" $out
